@@ -187,4 +187,18 @@ def runHistory : Nat → List Nat → HState
   | h, a :: rest =>
     if (visit h a).failed then visit h a else runHistory (visit h a).len rest
 
+/-- one pass of an event through `notify`, first entry or not: `e` = 1 when the `…StateEntered`
+event is appended (a first entry), `e` = 0 on a re-entry that logs none (a retry of the state, the
+re-entry of a Map state for its next batch); then the length is compared with the limit; `adds` is
+what the state appends afterwards (each attempt of a Task logs its scheduling, for instance) -/
+def pass (h e adds : Nat) : HState :=
+  if h + e > Generated.maxExecutionHistoryLength then ⟨h + e + closingEvents, true⟩
+  else ⟨h + e + adds, false⟩
+
+/-- a whole run as passes `(e, adds)` in order; stops at the pass on which the check fails -/
+def runPasses : Nat → List (Nat × Nat) → HState
+  | h, [] => ⟨h, false⟩
+  | h, p :: rest =>
+    if (pass h p.1 p.2).failed then pass h p.1 p.2 else runPasses (pass h p.1 p.2).len rest
+
 end Asl.Quota
